@@ -495,4 +495,212 @@ theorem gcSweep_simO (c : Cfg) (g : GoodCfg c) (K : Nat → List Nat) (r : Reg) 
       · exact Or.inr h'
       · exact Or.inl h'
 
+/-! ### histories with destructors `K` -/
+
+/-- the model's transition with destructors `K` -/
+def stepK (c : Cfg) (K : Nat → List Nat) (r : Reg) : Op → Option Reg
+  | .new p root marks => (gcSet c K r p root marks).map (fun x => x.1)
+  | .newRaw _ => some r
+  | .del p => (gcRem c K r p).map (fun x => x.1)
+  | .sweep marks =>
+    match markAll c r marks with
+    | none => none
+    | some r1 => (gcSweep c K r1).map (fun x => x.1)
+  | .stop => some (gcStop r)
+  | .start => some (gcStart r)
+
+/-- a collection on the ledger: the unmarked non-root objects are reclaimed and finalised in some order (each once); their
+    destructors' deletions act on what is kept and on what is still waiting -/
+def SweepL (K : Nat → List Nat) (running : Bool) (L : Ledger) (marks : List Nat) (L' : Ledger) : Prop :=
+  ∃ (order : List Nat) (a' : AbsO) (t : List Nat), order.Nodup ∧
+    (∀ p, p ∈ order ↔ ∃ b, (p, b) ∈ L ∧ (p, b) ∉ collectL L marks) ∧
+    absFinLoop K running order.length 0 (collectL L marks, order.map some) [] = some (a', t) ∧ L' = a'.1
+
+/-- the ledger transitions that explain the operations -/
+inductive LedgerK (K : Nat → List Nat) (r : Reg) (L : Ledger) : Op → Ledger → Prop where
+  | new_plain (p root marks) : r.running = true → ¬ (r.nitems + 1 > r.mitems) → LedgerK K r L (.new p root marks) ((p, root) :: L)
+  | new_collect (p root marks L') : r.running = true → r.nitems + 1 > r.mitems → SweepL K true ((p, root) :: L) marks L' →
+      LedgerK K r L (.new p root marks) L'
+  | new_stopped (p root marks) : r.running = false → LedgerK K r L (.new p root marks) L
+  | newRaw (p) : LedgerK K r L (.newRaw p) L
+  | del_run (p a' t) : r.running = true → absExecO K true (absFuel (L, [])) (L, []) (.rem p) = some (a', t) →
+      LedgerK K r L (.del p) a'.1
+  | del_stopped (p) : r.running = false → LedgerK K r L (.del p) L
+  | sweep (marks L') : SweepL K r.running L marks L' → LedgerK K r L (.sweep marks) L'
+  | stop : LedgerK K r L .stop L
+  | start : LedgerK K r L .start L
+
+theorem collectBy_eq_collectL (L : Ledger) (mk0 : Nat → Bool → Bool) (marks : List Nat) (hmk0 : ∀ q b, (b || mk0 q b) = b) :
+    collectBy L (fun q b => mk0 q b || marks.contains q) = collectL L marks := by
+  unfold collectBy collectL
+  apply List.filter_congr
+  intro x _
+  rw [← Bool.or_assoc, hmk0]
+
+/-- a full collection with destructors `K` from a well-formed state -/
+theorem collect_simO (c : Cfg) (g : GoodCfg c) (K : Nat → List Nat) (r : Reg) (L : Ledger) (hwf : WF c r L) (roots : Bool)
+    (marks : List Nat) :
+    ∃ r1 r' L' t, markAll c (if roots then markRoots r else r) marks = some r1 ∧ gcSweep c K r1 = some (r', t) ∧
+      SweepL K r.running L marks L' ∧ WF c r' L' ∧ r'.running = r.running := by
+  have hpre : ∃ mk0 : Nat → Bool → Bool, Core c (if roots then markRoots r else r) L mk0 ∧
+      (if roots then markRoots r else r).nitems = occ (if roots then markRoots r else r).slots ∧
+      Room (if roots then markRoots r else r) ∧ Bounded (if roots then markRoots r else r) L ∧
+      (if roots then markRoots r else r).n = r.n ∧ SameMeta r (if roots then markRoots r else r) ∧
+      (∀ q b, (b || mk0 q b) = b) := by
+    cases roots with
+    | false => exact ⟨noMark, hwf.core, hwf.count, hwf.room, hwf.bounded, rfl, SameMeta.refl r, by intro q b; simp [noMark]⟩
+    | true =>
+      obtain ⟨h1, h2, h3, h4⟩ := markRoots_core c r L noMark hwf.core
+      refine ⟨_, h1, ?_, ?_, ⟨hwf.bounded.bounds, hwf.bounded.aligned, hwf.bounded.zero⟩, rfl, h3, ?_⟩
+      · show r.nitems = occ (markRoots r).slots; rw [h2]; exact hwf.count
+      · exact hwf.room
+      · intro q b; cases b <;> simp [noMark]
+  obtain ⟨mk0, hcore0, hc0, hroom0, hb0, hn0, hmeta0, hmk0⟩ := hpre
+  obtain ⟨r1, hr1, hcore1, hocc1, hmeta1, hn1⟩ := markAll_core c _ L mk0 hcore0 hc0 hroom0 hb0 marks
+  have hc1 : r1.nitems = occ r1.slots := by rw [hmeta1.nitems, hocc1]; exact hc0
+  have hroom1 : Room r1 := by unfold Room at *; rw [hmeta1.nitems, hn1]; exact hroom0
+  have hb1 : Bounded r1 L := by
+    refine ⟨?_, hb0.aligned, ?_⟩
+    · intro p b hp; rw [hmeta1.minptr, hmeta1.maxptr]; exact hb0.bounds p b hp
+    · intro h0; rw [hmeta1.minptr, hmeta1.maxptr]; exact hb0.zero (by rw [← hn1]; exact h0)
+  obtain ⟨order, r', a', t, hsw, habs, hwf', hrun', hnd, hmem⟩ := gcSweep_simO c g K r1 L _ hcore1 hc1 hroom1 hb1 hwf.nodup
+  have hrun1 : r1.running = r.running := by rw [hmeta1.running, hmeta0.running]
+  rw [collectBy_eq_collectL L mk0 marks hmk0, hrun1] at habs
+  rw [collectBy_eq_collectL L mk0 marks hmk0] at hmem
+  exact ⟨r1, r', a'.1, t, hr1, hsw, ⟨order, a', t, hnd, hmem, habs, rfl⟩, hwf', by rw [hrun', hrun1]⟩
+
+/-- **one operation, destructors `K`**: from a well-formed state the model answers, some ledger transition explains the
+    operation, and the new state is well formed for the new ledger -/
+theorem stepK_wf (c : Cfg) (g : GoodCfg c) (K : Nat → List Nat) (r : Reg) (L : Ledger) (hwf : WF c r L) (op : Op) (hok : okOp L op) :
+    ∃ r' L', stepK c K r op = some r' ∧ LedgerK K r L op L' ∧ WF c r' L' := by
+  cases op with
+  | new p root marks =>
+    cases hrun : r.running with
+    | false =>
+      refine ⟨r, L, ?_, LedgerK.new_stopped p root marks hrun, hwf⟩
+      simp only [stepK, gcSet, hrun, Bool.not_false, if_true, Option.map]
+    | true =>
+      -- as in `gcSet_wf`, with the sweep of the threshold path running the destructors `K`
+      have core0 : Core c { r with nitems := r.nitems + 1, maxptr := if p > r.maxptr then p else r.maxptr,
+                                   minptr := if p < r.minptr then p else r.minptr } L noMark := hwf.core.of_slots rfl HEq.rfl
+      obtain ⟨r1, hr1, hmeta1, hcore1, hocc1, hroom1⟩ := resizeMore_spec c g _ L core0
+        (show r.nitems + 1 = occ r.slots + 1 by rw [hwf.count])
+      have hni1 : r1.nitems = r.nitems + 1 := hmeta1.nitems
+      have hocc1' : occ r1.slots = occ r.slots := hocc1
+      have hfresh1 : ∀ q (hq : q < r1.n) e, r1.slots[q] = some e → e.key ≠ p := by
+        intro q hq e he hk
+        apply hok.1
+        have := ((hcore1.ents e).1 ⟨q, hq, he⟩).1
+        rw [← hk]; exact List.mem_map.2 ⟨_, this, rfl⟩
+      obtain ⟨s, hs, invs, mems, occs⟩ := setPtr_spec c r1.slots hcore1.inv p root hfresh1
+        (by rw [hocc1', ← hwf.count]; omega)
+      have wf2 : WF c { r1 with slots := s } ((p, root) :: L) := by
+        refine ⟨⟨invs, ?_⟩, ?_, Or.inl hroom1, ⟨?_, ?_, ?_⟩, ?_, ?_⟩
+        · intro e
+          show Mem s e ↔ _
+          rw [mems e]
+          constructor
+          · rintro (h | h)
+            · obtain ⟨a, b, d⟩ := (hcore1.ents e).1 h
+              exact ⟨List.mem_cons_of_mem _ a, b, d⟩
+            · subst h; exact ⟨List.mem_cons_self, rfl, rfl⟩
+          · rintro ⟨a, b, d⟩
+            rcases List.mem_cons.1 a with h | h
+            · right
+              have h1 : e.key = p := congrArg Prod.fst h
+              have h2 : e.val.root = root := congrArg Prod.snd h
+              exact ent_eta e _ _ _ _ h1 (by rw [d, h1]) h2 b
+            · exact Or.inl ((hcore1.ents e).2 ⟨h, b, d⟩)
+        · show r1.nitems = occ s
+          rw [occs, hocc1', hni1, hwf.count]
+        · intro q b hq
+          show r1.minptr ≤ q ∧ q ≤ r1.maxptr
+          rw [hmeta1.minptr, hmeta1.maxptr]
+          show (if p < r.minptr then p else r.minptr) ≤ q ∧ q ≤ (if p > r.maxptr then p else r.maxptr)
+          rcases List.mem_cons.1 hq with h | h
+          · have : q = p := congrArg Prod.fst h
+            subst this
+            constructor <;> split <;> omega
+          · have := hwf.bounded.bounds q b h
+            constructor <;> split <;> omega
+        · intro q b hq
+          rcases List.mem_cons.1 hq with h | h
+          · have : q = p := congrArg Prod.fst h
+            rw [this]; exact hok.2
+          · exact hwf.bounded.aligned q b h
+        · intro h0
+          have : r1.n = 0 := h0
+          omega
+        · show (p :: L.map Prod.fst).Nodup
+          exact List.nodup_cons.2 ⟨hok.1, hwf.nodup⟩
+        · show r1.pending = #[]
+          rw [hmeta1.pending]; exact hwf.pend
+      have hrun2 : ({ r1 with slots := s } : Reg).running = true := by
+        show r1.running = true; rw [hmeta1.running]; exact hrun
+      have hth : (({ r1 with slots := s } : Reg).nitems > ({ r1 with slots := s } : Reg).mitems) ↔ r.nitems + 1 > r.mitems := by
+        show r1.nitems > r1.mitems ↔ _
+        rw [hni1, hmeta1.mitems]
+      have hnr : (!r.running) = false := by rw [hrun]; rfl
+      by_cases h : r.nitems + 1 > r.mitems
+      · obtain ⟨ra, r', L', t, hra, hsw, hL', hwf', _⟩ := collect_simO c g K _ _ wf2 true marks
+        simp only [if_true] at hra
+        rw [hrun2] at hL'
+        refine ⟨r', L', ?_, LedgerK.new_collect p root marks L' hrun h hL', hwf'⟩
+        unfold stepK gcSet
+        rw [hnr]
+        simp only [Bool.false_eq_true, if_false]
+        rw [hr1]; simp only []
+        rw [hs]; simp only []
+        rw [if_pos (hth.2 h), hra]
+        simp only [hsw, Option.map]
+      · refine ⟨_, _, ?_, LedgerK.new_plain p root marks hrun h, wf2⟩
+        unfold stepK gcSet
+        rw [hnr]
+        simp only [Bool.false_eq_true, if_false]
+        rw [hr1]; simp only []
+        rw [hs]; simp only []
+        rw [if_neg (fun h' => h (hth.1 h'))]
+        rfl
+  | newRaw p => exact ⟨r, L, rfl, LedgerK.newRaw p, hwf⟩
+  | del p =>
+    cases hrun : r.running with
+    | false =>
+      refine ⟨r, L, ?_, LedgerK.del_stopped p hrun, hwf⟩
+      have hfuel : nestFuel r = (2 * (r.nitems + r.pending.size) + 3) + 1 := by unfold nestFuel; omega
+      simp only [stepK, gcRem, hfuel, exec_rem_succ, hrun, Bool.not_false, if_true, Option.map]
+    | true =>
+      have hp0 : r.pending.toList = ([] : List (Option Nat)) := by rw [hwf.pend]
+      have hfuel := nestFuel_eq c r (L, []) hwf.toWFP hp0
+      obtain ⟨a', t, ha, _, hlen⟩ := absExecO_ok K true (absFuel (L, [])) (L, []) (.rem p) (by
+        simp only [AbsO.size, absFuel, List.countP_nil, List.length_nil]; omega)
+      have hsim := exec_simO c g K (nestFuel r) r (L, []) (.rem p) hwf.toWFP hp0
+      rw [hrun, hfuel, ha] at hsim
+      match hx : exec c K (absFuel (L, [])) r (.rem p), hsim with
+      | some (r', t'), hs =>
+        obtain ⟨e1, e2, e3, e4⟩ := hs
+        have hpend : r'.pending = #[] := by
+          have : r'.pending.toList = [] := by
+            rw [e3]; exact List.eq_nil_of_length_eq_zero (by rw [hlen]; rfl)
+          cases hr' : r'.pending with | mk l => rw [hr'] at this; simp at this; rw [this]
+        refine ⟨r', a'.1, ?_, LedgerK.del_run p a' t hrun ha, e2.toWF hpend⟩
+        simp only [stepK, gcRem, hfuel, hx, Option.map]
+  | sweep marks =>
+    obtain ⟨r1, r', L', t, h1, h2, h3, h4, _⟩ := collect_simO c g K r L hwf false marks
+    simp only [Bool.false_eq_true, if_false] at h1
+    exact ⟨r', L', by simp only [stepK, h1, h2, Option.map], LedgerK.sweep marks L' h3, h4⟩
+  | stop => exact ⟨_, L, rfl, LedgerK.stop, wf_running c r L hwf false⟩
+  | start => exact ⟨_, L, rfl, LedgerK.start, wf_running c r L hwf true⟩
+
+/-- the states reachable with destructors `K`, each with a ledger that explains the history so far and for which the
+    state is well formed -/
+inductive ReachK (c : Cfg) (K : Nat → List Nat) : Reg → Ledger → Prop where
+  | init : ReachK c K Reg.init []
+  | step {r : Reg} {L : Ledger} {op : Op} {r' : Reg} {L' : Ledger} :
+      ReachK c K r L → okOp L op → stepK c K r op = some r' → LedgerK K r L op L' → WF c r' L' → ReachK c K r' L'
+
+theorem reachK_wf (c : Cfg) (K : Nat → List Nat) (r : Reg) (L : Ledger) (h : ReachK c K r L) : WF c r L := by
+  cases h with
+  | init => exact wf_init c
+  | step _ _ _ _ hwf => exact hwf
+
 end Cello.Registry
